@@ -164,7 +164,7 @@ def exMerged : Val :=
 theorem ex_hyps : exTy.wf ∧ Ty.rtShape false exTy ∧ exTy.isPtr = false ∧ exTy.hasTy exVal
     ∧ Total.Shape exTy exPrior ∧ (marshal exTy exVal).length < 2 ^ 63 := by
   refine ⟨?_, ?_, rfl, ?_, ?_, by decide +kernel⟩
-  · simp [exTy, Ty.wf, fieldsWf, validWidth, Ty.wt, Ty.isMap]
+  · simp [exTy, Ty.wf, fieldsWf, validWidth, Ty.wt, Ty.isMap, Ty.isProtoSlice]
   · simp [exTy, Ty.rtShape, fieldsRtShape, Ty.isPtr, Ty.keySafe]
   · simp [exTy, exVal, Ty.hasTy, fieldsHaveTy, intRange, keysDistinct, Val.beq]
   · simp [exTy, exPrior, Total.Shape, Total.ShapeL]
